@@ -365,10 +365,10 @@ func (c *FnCtx) callMods(cc *ssa.CallCommon, out map[string]bool) bool {
 			}
 		}
 	}
-	if c.isAtomicOrSync(ci) {
+	spec := c.g.specs.Funcs[ci.name]
+	if c.isAtomicOrSync(ci) && spec == nil {
 		return false
 	}
-	spec := c.g.specs.Funcs[ci.name]
 	if spec == nil {
 		if ci.external && c.g.specs.PurePkgs[ci.pkgName] {
 			return false
@@ -558,7 +558,7 @@ func (c *FnCtx) call(ins ssa.Instruction, cc *ssa.CallCommon, val ssa.Value) {
 		spec = nil
 	}
 	switch {
-	case c.isAtomicOrSync(ci):
+	case c.isAtomicOrSync(ci) && spec == nil:
 		c.atomicCall(ci, args, locs, results)
 	case spec != nil:
 		c.applySpec(spec, ci, args, results, pos)
